@@ -31,9 +31,11 @@ FULL_LEAVES = ([('num', x) for x in NUMS] + [('bool', x) for x in BOOLS] +
                [('str', x) for x in STRS])
 REDUCED_LEAVES = [('num', '1'), ('num', '2.5E-3'), ('ref', 'A1'),
                   ('ref', "'My Sheet'!$A$1:B2"), ('str', 'a,")'),
-                  ('bool', 'TRUE'), ('err', '#N/A'), ('ref', 'Sheet2!B7')]
+                  ('bool', 'TRUE'), ('err', '#N/A'), ('ref', 'Sheet2!B7'),
+                  # a call without arguments is a value like any other
+                  ('call', 'NA', [])]
 TINY_LEAVES = [('num', '2'), ('ref', 'A1'), ('ref', '$B$2:C3'),
-               ('str', '(: ')]
+               ('str', '(: '), ('call', 'PI', [])]
 BINOPS_REP = ['^', '*', '+', '&', '=']
 # defined names handed to the parser in the 'names' family, and the leaves
 # used there: a name used as a reference is replaced by its address, a text
